@@ -127,6 +127,15 @@ FamK(back) ==
                      !.fields = <<Field("F1", KArg(w[5]))>>]
        @@ "s2" :> CtorSvc("NewB", IF back THEN <<ASvc("s1")>> ELSE <<>>))] :
       w \in [1..5 -> {"lit", "s1", "s2"}]}
+  \cup
+  \* the same positions on a service given by a value (no constructor, hence no constructor argument): its calls and fields
+  \* are injected all the same
+  {[EmptyCfg EXCEPT !.services =
+      (   "s1" :> [EmptySvc EXCEPT !.value = "Var",
+                     !.calls = <<Call("SetX", <<KArg(w[2]), KArg(w[3])>>, FALSE), Call("SetY", <<KArg(w[4])>>, FALSE)>>,
+                     !.fields = <<Field("F1", KArg(w[5]))>>]
+       @@ "s2" :> CtorSvc("NewB", IF back THEN <<ASvc("s1")>> ELSE <<>>))] :
+      w \in {f \in [1..5 -> {"lit", "s1", "s2"}] : f[1] = "lit"}}
 
 (* N: which names are DECLARED varies, down to no parameters / a single service at all.  *)
 FamN(D) ==
